@@ -124,11 +124,11 @@ func runC19(c *an.Ctx) {
 	maxAccepted := int64(0)
 	decide(c, "C19-R2", "websvc.shouldProxy", an.DecideCfg{
 		Dom: an.Domain{
-			"p0":               an.Strs("GET", "POST", "PUT", "HEAD", "DELETE"),
+			"p0":                an.Strs("GET", "POST", "PUT", "HEAD", "DELETE"),
 			"len(nonnil:parts)": an.Ints(1, 2, 3, 4, 5, 6),
-			"nonnil:parts[0]":  an.Strs("linkip", "ddns", "other"),
-			"nonnil:parts[3]":  an.Strs("status", "x"),
-			"dot":              an.Bools, "dotdot": an.Bools,
+			"nonnil:parts[0]":   an.Strs("linkip", "ddns", "other"),
+			"nonnil:parts[3]":   an.Strs("status", "x"),
+			"dot":               an.Bools, "dotdot": an.Bools,
 		},
 		Inline: inlinePkgs([]string{"websvc.shouldProxy"}),
 		OnCall: func(it *an.Interp, name string, args []an.AV) (an.AV, bool) {
